@@ -56,6 +56,8 @@ pub enum Node {
     File(Vec<u8>),
     Dir,
     Symlink(String),
+    /// a named pipe (nobody ever opens its other end)
+    Fifo,
 }
 
 #[derive(Clone, Debug, PartialEq)]
@@ -184,6 +186,7 @@ impl Scenario {
                 Node::File(b) => json!({"path": p, "file": show_bytes(b)}),
                 Node::Dir => json!({"path": p, "dir": true}),
                 Node::Symlink(t) => json!({"path": p, "symlink_to": t}),
+                Node::Fifo => json!({"path": p, "fifo": true}),
             }).collect::<Vec<_>>(),
             "generators": self.gens.iter().enumerate().map(|(i, g)| json!({
                 "placeholder": format!("{{gen{i}}}"),
@@ -434,6 +437,10 @@ fn materialise(scratch: &Scratch, sc: &Scenario) {
                 f.set_modified(old).expect("set mtime");
             }
             Node::Symlink(t) => std::os::unix::fs::symlink(t, &p).expect("create symlink"),
+            Node::Fifo => {
+                let c = std::ffi::CString::new(p.to_str().expect("UTF-8 path")).unwrap();
+                assert_eq!(unsafe { libc::mkfifo(c.as_ptr(), 0o644) }, 0, "mkfifo");
+            }
         }
     }
     let fakegen = sibling("fakegen");
@@ -496,27 +503,60 @@ pub fn run_in(scratch: &Scratch, sc: &Scenario, timeout: Duration) -> Obs {
     // (a scenario may name another subject built next to the harness - `emitcs`, a minimal compiler that ends with
     // the library's own exit point - through the pseudo environment entry MC_SUBJECT_BINARY)
     let subject = sc.env.iter().find(|(k, _)| k == "MC_SUBJECT_BINARY").map(|(_, v)| v.clone()).unwrap_or_else(|| "slicec".to_string());
+    // (... and where its output streams lead, through MC_STDOUT / MC_STDERR: "pipe" = captured (the default),
+    // "full" = /dev/full (every write fails with ENOSPC), "broken" = a pipe nobody reads (EPIPE), "closed" = the
+    // descriptor is closed when the program starts)
+    let stream = |key: &str| sc.env.iter().find(|(k, _)| k == key).map(|(_, v)| v.clone()).unwrap_or_else(|| "pipe".to_string());
+    let (how_out, how_err) = (stream("MC_STDOUT"), stream("MC_STDERR"));
+    let stdio = |how: &str| -> Stdio {
+        match how {
+            "pipe" => Stdio::piped(),
+            "full" => Stdio::from(std::fs::OpenOptions::new().write(true).open("/dev/full").expect("open /dev/full")),
+            "broken" => {
+                let mut fds = [0i32; 2];
+                assert_eq!(unsafe { libc::pipe2(fds.as_mut_ptr(), libc::O_CLOEXEC) }, 0, "pipe2");
+                unsafe { libc::close(fds[0]) };
+                Stdio::from(unsafe { <std::os::fd::OwnedFd as std::os::fd::FromRawFd>::from_raw_fd(fds[1]) })
+            }
+            "closed" => Stdio::null(), // closed in the child just before exec
+            other => panic!("unknown stream disposition {other:?}"),
+        }
+    };
     let mut cmd = Command::new(sibling(&subject));
     cmd.args(&argv)
         .current_dir(&work)
         .stdin(Stdio::null())
-        .stdout(Stdio::piped())
-        .stderr(Stdio::piped())
+        .stdout(stdio(&how_out))
+        .stderr(stdio(&how_err))
         .env("NO_COLOR", "1")
         .env("CLICOLOR_FORCE", "0")
         .env("CLICOLOR", "0")
         .env("RUST_BACKTRACE", "0")
         .process_group(0);
     for (k, v) in &sc.env {
-        if k != "MC_SUBJECT_BINARY" {
+        if !matches!(k.as_str(), "MC_SUBJECT_BINARY" | "MC_STDOUT" | "MC_STDERR") {
             cmd.env(k, expand(v, scratch, sc));
+        }
+    }
+    let (close_out, close_err) = (how_out == "closed", how_err == "closed");
+    if close_out || close_err {
+        unsafe {
+            cmd.pre_exec(move || {
+                if close_out {
+                    libc::close(1);
+                }
+                if close_err {
+                    libc::close(2);
+                }
+                Ok(())
+            });
         }
     }
     let t0 = Instant::now();
     let mut child = cmd.spawn().expect("spawn slicec (is it built next to mc?)");
     let pid = child.id() as i32;
-    let out_h = drain(child.stdout.take().unwrap());
-    let err_h = drain(child.stderr.take().unwrap());
+    let out_h = child.stdout.take().map(drain);
+    let err_h = child.stderr.take().map(drain);
 
     // watchdog: kills the whole process group (slicec and its generators) when the bound expires
     let fired = Arc::new(AtomicBool::new(false));
@@ -551,8 +591,8 @@ pub fn run_in(scratch: &Scratch, sc: &Scenario, timeout: Duration) -> Obs {
     if timed_out {
         unsafe { libc::kill(-pid, libc::SIGKILL) };
     }
-    let stdout = out_h.join().unwrap_or_default();
-    let stderr = err_h.join().unwrap_or_default();
+    let stdout = out_h.map(|h| h.join().unwrap_or_default()).unwrap_or_default();
+    let stderr = err_h.map(|h| h.join().unwrap_or_default()).unwrap_or_default();
 
     let gens = sc
         .gens
